@@ -200,6 +200,63 @@ theorem process_twice {β : Type} (F : Nat → List β → β) (g : PG) (hwf : g
     have hv' : v ∈ order g r.proc root := hord2 ▸ hv
     exact hfun v ((order_mem g hwf r.proc hok root hr v).mp hv')
 
+
+theorem proc_empty_ok : Proc.empty.Ok := rfl
+
+/-! ### a call that unwinds (a user node panics), then reuse of the processor -/
+
+/-- **C09, "repeated process calls on the same processor" after a call that unwound.**  If a user
+    node panics during a call and the caller keeps the processor, the unwound call had invoked a
+    prefix of the ordinary call's invocations (each with the ordinary inputs), and EVERY later call on
+    that processor — any output node, any buffer contents — invokes exactly the nodes, with exactly the
+    inputs, and leaves exactly the buffers that a call on a fresh processor would. -/
+theorem process_after_unwound_call {β : Type} (F : Nat → List β → β) (g : PG) (hwf : g.WF) (p : Proc) (hp : p.Ok)
+    (buf : Nat → β) (root k : Nat) (hr : root < g.bound) (hl : g.live root = true) :
+    ∃ ra b r, processAbort F g p buf root k = some (ra, b) ∧ process F g p buf root = some r ∧
+      ra.log <+: r.log ∧ (b = true → ra.log.getLast? = some (k, inputsOf g k)) ∧ (b = false → ra.log = r.log) ∧
+      ∀ (buf' : Nat → β) (root' : Nat), root' < g.bound →
+        ∀ r2 r2', process F g ra.proc buf' root' = some r2 → process F g Proc.empty buf' root' = some r2' →
+          r2.log = r2'.log ∧ r2.buf = r2'.buf := by
+  obtain ⟨r, hr1, _, _, hok, _⟩ := process_spec F g hwf p hp buf root hr hl
+  have hpe := process_eq F g p buf root hr hl
+  rw [hr1] at hpe
+  simp only [Option.some.injEq, order] at hpe
+  unfold processAbort
+  simp only [hr, hl, decide_true, Bool.and_self, if_true]
+  generalize run ⟨g.inc⟩ (resetMoveTo g p root) = s at hpe ⊢
+  have hlog : r.log = s.out.map (fun n => (n, inputsOf g n)) := by rw [hpe]
+  have hproc : r.proc = ⟨s.stack, s.disc, s.fin⟩ := by rw [hpe]
+  have hok' : (⟨s.stack, s.disc, s.fin⟩ : Proc).Ok := hproc ▸ hok
+  have later : ∀ (buf' : Nat → β) (root' : Nat), root' < g.bound →
+      ∀ r2 r2', process F g ⟨s.stack, s.disc, s.fin⟩ buf' root' = some r2 → process F g Proc.empty buf' root' = some r2' →
+        r2.log = r2'.log ∧ r2.buf = r2'.buf := fun buf' root' hr' r2 r2' h2 h2' =>
+    process_independent_of_processor F g hwf _ _ hok' proc_empty_ok buf' root' hr' r2 r2' h2 h2'
+  by_cases hlt : (s.out.takeWhile (fun n => n != k)).length < s.out.length
+  · rw [if_pos hlt]
+    refine ⟨_, true, r, rfl, hr1, ?_, ?_, ?_, later⟩
+    · -- prefix
+      rw [hlog]
+      have hsplit := List.takeWhile_append_dropWhile (p := fun n => n != k) (l := s.out)
+      have hdne : s.out.dropWhile (fun n => n != k) ≠ [] := by
+        intro h
+        have := congrArg List.length hsplit
+        rw [h] at this; simp at this; omega
+      obtain ⟨d, ds, hd⟩ := List.exists_cons_of_ne_nil hdne
+      have hdk : d = k := by
+        have := List.head_dropWhile_not (p := fun n => n != k) (l := s.out) hdne
+        simp only [hd, List.head_cons] at this
+        simpa using this
+      refine ⟨ds.map (fun n => (n, inputsOf g n)), ?_⟩
+      conv => rhs; rw [← hsplit, hd, hdk]
+      simp [List.map_append]
+    · intro _; simp
+    · intro h; cases h
+  · rw [if_neg hlt]
+    refine ⟨_, false, r, rfl, hr1, ?_, ?_, ?_, later⟩
+    · rw [hlog]; exact List.prefix_refl _
+    · intro h; cases h
+    · intro _; rw [hlog]
+
 /-- documented panic: "**Panics** if there is no node for the given index" -/
 theorem process_missing_node {β : Type} (F : Nat → List β → β) (g : PG) (p : Proc) (buf : Nat → β) (root : Nat)
     (h : ¬ (root < g.bound ∧ g.live root = true)) : process F g p buf root = none := by
@@ -208,7 +265,6 @@ theorem process_missing_node {β : Type} (F : Nat → List β → β) (g : PG) (
   · rename_i hc; simp at hc; exact absurd hc h
   · rfl
 
-theorem proc_empty_ok : Proc.empty.Ok := rfl
 
 /-! ### sources / sinks -/
 
@@ -336,5 +392,14 @@ example : ∃ r r2, process (fun _ (l : List Nat) => 1 + l.sum) gDag Proc.empty 
   obtain ⟨r, r2, h1, h2, hl, hb⟩ := process_twice (fun _ (l : List Nat) => 1 + l.sum) gDag gDag_wf Proc.empty
     proc_empty_ok (fun _ => 7) 1 (by decide) rfl
   exact ⟨r, r2, h1, h2, hl, hb gDag_acyclic⟩
+
+/-- the unwound-call theorem is applicable to the acyclic example: node 3 fails while the output node 1
+    is processed; whatever is processed afterwards on the same processor equals a fresh processor's run -/
+example : ∃ ra b, processAbort (fun _ (l : List Nat) => 1 + l.sum) gDag Proc.empty (fun _ => 7) 1 3 = some (ra, b) ∧
+    ∀ r2 r2', process (fun _ (l : List Nat) => 1 + l.sum) gDag ra.proc (fun _ => 9) 0 = some r2 →
+      process (fun _ (l : List Nat) => 1 + l.sum) gDag Proc.empty (fun _ => 9) 0 = some r2' → r2.log = r2'.log ∧ r2.buf = r2'.buf := by
+  obtain ⟨ra, b, _, h1, _, _, _, _, hlater⟩ := process_after_unwound_call (fun _ (l : List Nat) => 1 + l.sum) gDag gDag_wf
+    Proc.empty proc_empty_ok (fun _ => 7) 1 3 (by decide) rfl
+  exact ⟨ra, b, h1, fun r2 r2' h2 h2' => hlater (fun _ => 9) 0 (by decide) r2 r2' h2 h2'⟩
 
 end Dasp.Props.C09
